@@ -81,7 +81,7 @@ StrictCol(x, defs) == StrictE(Col(x), defs)
 
 (* Cache.requires_subquery, Join rules, for one side (isRight: the `node.child not in derived_from` case); q: that side's accumulator *)
 RqJoin(c, t, q, how, isRight) ==
-    IF c.lim # 0 THEN "join after slice_head"
+    IF c.lim # -1 THEN "join after slice_head"
     ELSE IF c.grp # {} \/ c.summ THEN "join with a grouped table"
     ELSE IF (how = "full" \/ (isRight /\ how = "left")) /\ \E x \in VisSet(t) : t.fk[x] = "e" /\ IsConstCol(t, x)
          THEN "left / full join with a table containing a constant column"
@@ -121,7 +121,7 @@ JoinCs(a, b, how) == [Cs0 EXCEPT !.filt = JoinFilt(a, b, how)]
 
 (* Cache.requires_subquery, Union rules (the same for both sides) *)
 RqUnion(c, t) ==
-    IF c.lim # 0 THEN "union after slice_head"
+    IF c.lim # -1 THEN "union after slice_head"
     ELSE IF c.grp # {} \/ c.summ THEN "union with a grouped table"
     ELSE IF \E x \in VisSet(t) : t.fk[x] = "w" THEN "union with a table containing window function expression"
     ELSE ""
